@@ -156,29 +156,22 @@ func verifNoRawFlow(render func(string) (string, bool), x string, what string) {
 	if !ok {
 		return
 	}
+	// (1) data flow, engine only: byte provenance of the output
+	verifProvenance(out, what)
+	// (2) differential, engine and native: also catches a special character that is re-created
+	// from constant text under control of the input (escape followed by an un-escape)
+	// ('&' is left to the provenance check: a filter working on rendered output may legitimately cut
+	// or re-case an entity, which leaves the entity's own ampersand behind - constant text, not input)
 	count := func(s string, c byte) int {
 		n := 0
 		for i := 0; i < len(s); i++ {
-			if s[i] != c {
-				continue
+			if s[i] == c {
+				n++
 			}
-			if c == '&' {
-				rest := s[i:]
-				ent := false
-				for _, e := range []string{"&amp;", "&lt;", "&gt;", "&quot;", "&#39;"} {
-					if len(rest) >= len(e) && rest[:len(e)] == e {
-						ent = true
-					}
-				}
-				if ent {
-					continue
-				}
-			}
-			n++
 		}
 		return n
 	}
-	for _, c := range []byte{'<', '>', '"', '\'', '&'} {
+	for _, c := range []byte{'<', '>', '"', '\''} {
 		has := false
 		b := []byte(x)
 		for i := range b {
@@ -191,8 +184,12 @@ func verifNoRawFlow(render func(string) (string, bool), x string, what string) {
 			continue
 		}
 		out2, ok2 := render(string(b))
-		if ok2 && count(out, c) > count(out2, c) {
-			panic(verifFailure{what})
+		if ok2 {
+			verifAssert(count(out, c) <= count(out2, c), what)
 		}
 	}
 }
+
+// verifProvenance: engine-side obligation - no byte of out whose term depends on a symbolic
+// input byte can equal < > & " ' under the path condition. No provenance exists natively.
+func verifProvenance(out string, what string) {}
